@@ -100,6 +100,7 @@ func revokedSets(r *mrand.Rand, t *big.Int) map[string][]*big.Int {
 		"near-miss-plus-1":       {add(1)},
 		"near-miss-minus-1":      {add(-1)},
 		"near-miss-leading-byte": {shifted},
+		"near-miss-negated":      {new(big.Int).Neg(t)}, // a CRL entry may carry a negative INTEGER: -N is not N
 		"near-miss-times-256":    {new(big.Int).Lsh(t, 8)},
 		"unrelated-20-byte":      {big20(), big20()},
 		"unrelated-1000":         many(-1),
@@ -184,6 +185,8 @@ func c05(x *mon.Ctx) {
 						exp = "reject"
 					case o.crl && hit:
 						exp = "reject"
+					case !hit:
+						exp = "accept" // the quote is honest and no list names one of its certificates (near misses are misses)
 					}
 					class := "revoked/" + tname + "/" + sname
 					if !hit {
